@@ -157,6 +157,43 @@ func (p c04) Gen(r *simhook.Rand, tier string, idx int) harness.Scenario {
 		sc.IdleFaults = false
 		return sc
 	}
+	if r.Chance(1, 12) {
+		// class "first-contact": right after the routing table was loaded a slot goes to a master the proxy has had no
+		// reason to talk to yet; pipelines on keys of that slot are all sent to the old owner, answered MOVED and
+		// re-sent to a node that must first be connected to. Their order must survive.
+		sc.Class = "first-contact"
+		sc.Env = world.RedisCfg{Masters: 3 + r.Intn(2)}
+		m := sc.Env.Masters
+		tag := fmt.Sprintf("fc%c", 'a'+rune(r.Intn(26)))
+		slot := cluster.Slot([]byte("{" + tag + "}"))
+		per := cluster.NumSlots / m
+		src := slot / per
+		if src >= m {
+			src = m - 1
+		}
+		keys := []string{fmt.Sprintf("{%s}:0", tag), fmt.Sprintf("{%s}:1", tag)}
+		sc.Env.Preload = append(sc.Env.Preload, world.KV{K: world.Bin(keys[0]), V: world.Bin(uniqueVal("pre", 0, 10))})
+		for ci := 0; ci < 1+r.Intn(2); ci++ {
+			cs := ConnScript{Name: fmt.Sprintf("c%d", ci)}
+			for k := 0; k < 6+r.Intn(10); k++ {
+				key := keys[r.Intn(2)]
+				var a []world.Bin
+				switch r.Intn(4) {
+				case 0:
+					a = world.Bins("GET", key)
+				case 1:
+					a = append(world.Bins("APPEND", key), world.Bin(uniqueVal(cs.Name, k, 6)))
+				default:
+					a = append(world.Bins("SET", key), world.Bin(uniqueVal(cs.Name, k, 10)))
+				}
+				cs.Reqs = append(cs.Reqs, world.Request{Args: a})
+			}
+			sc.Conns = append(sc.Conns, cs)
+		}
+		sc.Faults = []Fault{{Kind: "layout", From: slot, To: slot, Dst: (src + 1 + r.Intn(m-1)) % m, OnCmd: "cluster", Nth: 1}}
+		sc.HorizonS = 900
+		return sc
+	}
 	emptyTarget := r.Chance(1, 3)
 	if emptyTarget {
 		// the last master is a freshly added node without slots: the first slots migrate to it
